@@ -3,7 +3,7 @@
 #if 1
 #include "ref_lh1.h"
 #endif
-#ifdef HAVE_REF_PM
+#if 1
 #include "ref_pm.h"
 #endif
 
@@ -23,7 +23,7 @@ long ref_decode(const char *method, const uint8_t *in, size_t n, size_t declared
 #if 1
 	if (!strcmp(method, "-lh1-")) return (long) ref_lh1_decode(in, n, declared, out);
 #endif
-#ifdef HAVE_REF_PM
+#if 1
 	if (!strcmp(method, "-pm2-")) return (long) ref_pm2_decode(in, n, declared, out, err);
 	if (!strcmp(method, "-pm1-")) return (long) ref_pm1_decode(in, n, declared, out, err);
 #endif
